@@ -19,6 +19,7 @@ package geom
 //@ func solve1
 //@   requires len(coeff) >= 2
 //@   modifies Elems[float64], alloc
+//@   ensures[alloc] result == nil || allocatedArr(result)
 //@   ensures[frame] forall t []float64, j int :: old(allocatedArrId(arr(t))) ==> t[j] == old(t[j])
 //@   ensures[degenerate] tiny(old(coeff[1])) && tiny(old(coeff[0])) ==> result == nil
 //@   ensures[none] tiny(old(coeff[1])) && !tiny(old(coeff[0])) ==> result != nil && len(result) == 0
@@ -29,6 +30,7 @@ package geom
 //@ func solve2
 //@   requires len(coeff) >= 3
 //@   modifies Elems[float64], alloc
+//@   ensures[alloc] result == nil || allocatedArr(result)
 //@   ensures[frame] forall t []float64, j int :: old(allocatedArrId(arr(t))) ==> t[j] == old(t[j])
 //@   ensures[count] !tiny(old(coeff[2])) ==> result != nil && len(result) <= 2
 //@   ensures[root0] !tiny(old(coeff[2])) && len(result) >= 1 ==> old(coeff[2]) * result[0] * result[0] + old(coeff[1]) * result[0] + old(coeff[0]) == 0.0
@@ -45,6 +47,7 @@ package geom
 //@ func solve3
 //@   requires len(coeff) >= 4
 //@   modifies Elems[float64], alloc
+//@   ensures[alloc] result == nil || allocatedArr(result)
 //@   ensures[frame] forall t []float64, j int :: old(allocatedArrId(arr(t))) ==> t[j] == old(t[j])
 //@   ensures[count] !tiny(old(coeff[3])) ==> result != nil && (len(result) == 1 || len(result) == 3)
 //@   ensures[root_single] !tiny(old(coeff[3])) && len(result) == 1 ==>
@@ -130,3 +133,40 @@ package geom
 //@   loop for(j>=0)#1
 //@     invariant !old(allocatedArr(now(points)))
 //@     invariant forall t []P, j int :: old(allocatedArr(t)) ==> t[j] == old(t[j])
+
+// ---------------------------------------------------------------------------
+// curveIntersects (C20): which of the solver's roots are reported as crossings of a barrier.
+// polyX/polyY: the curve's coordinates at parameter t in the polynomial (Horner) form the code evaluates.
+//@ spec polyX(bz ctrlp, t float64) float64 =
+//@   bz.p0.X + t * (3.0 * (bz.p1.X - bz.p0.X) + t * ((3.0 * bz.p0.X + 3.0 * bz.p2.X - 6.0 * bz.p1.X) + t * (bz.p3.X + 3.0 * bz.p1.X - (bz.p0.X + 3.0 * bz.p2.X))))
+//@ spec polyY(bz ctrlp, t float64) float64 =
+//@   bz.p0.Y + t * (3.0 * (bz.p1.Y - bz.p0.Y) + t * ((3.0 * bz.p0.Y + 3.0 * bz.p2.Y - 6.0 * bz.p1.Y) + t * (bz.p3.Y + 3.0 * bz.p1.Y - (bz.p0.Y + 3.0 * bz.p2.Y))))
+// relV/relS: where the curve point at parameter t sits along the segment, as the segment's own parameter (0 at A, 1 at B):
+// along y for a vertical segment, along x otherwise. Measured this way the direction in which the segment is given
+// does not matter. (opaque: the quantified obligations only need the value, not the polynomial)
+//@ spec relV(bz ctrlp, seg Segment, t float64) float64 = (polyY(bz, t) - seg.A.Y) / (seg.B.Y - seg.A.Y)
+//@   opaque
+//@ spec relS(bz ctrlp, seg Segment, t float64) float64 = (polyX(bz, t) - seg.A.X) / (seg.B.X - seg.A.X)
+//@   opaque
+//@ spec withinV(bz ctrlp, seg Segment, t float64) bool = 0.0 <= relV(bz, seg, t) && relV(bz, seg, t) <= 1.0
+//@ spec withinS(bz ctrlp, seg Segment, t float64) bool = 0.0 <= relS(bz, seg, t) && relS(bz, seg, t) <= 1.0
+
+// For a vertical barrier (loop #4) and a sloped one (loop #5): every root in [0,1] at which the curve point lies
+// within the segment is reported, and only such roots are. (That the solver finds all roots is solve3's business.)
+//@ func curveIntersects
+//@   assert[svV|C20] after "sv = (sv - yc0) / yc1" : sv == relV(bz, seg, tv)
+//@   assert[svS|C20] after "sv = (sv - xc0) / xc1" : sv == relS(bz, seg, tv)
+//@   loop range(xroots)#3 index v
+//@     invariant[vreported|C20] forall i int :: 0 <= i && i < v && 0.0 <= xroots[i] && xroots[i] <= 1.0 && withinV(bz, seg, xroots[i]) ==>
+//@         (exists q int :: 0 <= q && q < len(roots) && roots[q] == xroots[i])
+//@     invariant[vonly|C20] forall q int :: 0 <= q && q < len(roots) ==> 0.0 <= roots[q] && roots[q] <= 1.0 && withinV(bz, seg, roots[q])
+//@     invariant forall i int :: 0 <= i && i < len(xroots) ==> xroots[i] == loopold(xroots[i])
+//@     invariant roots == nil || (allocatedArr(roots) && arr(roots) != arr(xroots))
+//@     invariant xroots == nil || allocatedArr(xroots)
+//@   loop range(xroots)#4 index w
+//@     invariant[sreported|C20] forall i int :: 0 <= i && i < w && 0.0 <= xroots[i] && xroots[i] <= 1.0 && withinS(bz, seg, xroots[i]) ==>
+//@         (exists q int :: 0 <= q && q < len(roots) && roots[q] == xroots[i])
+//@     invariant[sonly|C20] forall q int :: 0 <= q && q < len(roots) ==> 0.0 <= roots[q] && roots[q] <= 1.0 && withinS(bz, seg, roots[q])
+//@     invariant forall i int :: 0 <= i && i < len(xroots) ==> xroots[i] == loopold(xroots[i])
+//@     invariant roots == nil || (allocatedArr(roots) && arr(roots) != arr(xroots))
+//@     invariant xroots == nil || allocatedArr(xroots)
